@@ -90,6 +90,31 @@ def families():
             return hasattr(C, 'bag')
     Bag = type('Bag', (), {'bag': ()}); SubBag = type('SubBag', (Bag,), {}); Other = type('Other', (), {})
     fams.append(('abc-bool-hook', [HasBag, Bag, SubBag], [Bag, SubBag, Other]))
+    # a chain of duck types related only VIRTUALLY (issubclass(HasAB, HasA) is answered by HasA's hook; neither is in the other's
+    # MRO), with targets that are virtual subclasses of both and real subclasses of neither: the more specific one is nearer
+    class HasA(metaclass=abc.ABCMeta):
+        a_mark = None
+
+        @classmethod
+        def __subclasshook__(cls, C):
+            if cls is HasA:
+                return hasattr(C, 'a_mark') or NotImplemented
+            return NotImplemented
+
+    class HasAB(metaclass=abc.ABCMeta):
+        a_mark = b_mark = None
+
+        @classmethod
+        def __subclasshook__(cls, C):
+            if cls is HasAB:
+                return (hasattr(C, 'a_mark') and hasattr(C, 'b_mark')) or NotImplemented
+            return NotImplemented
+    OnlyA = type('OnlyA', (), {'a_mark': 1}); BothAB = type('BothAB', (), {'a_mark': 1, 'b_mark': 2}); SubBoth = type('SubBoth', (BothAB,), {})
+
+    class Shape(metaclass=abc.ABCMeta):
+        pass
+    Shape.register(BothAB)
+    fams.append(('virtual-chain', [HasA, HasAB, Shape], [OnlyA, BothAB, SubBoth]))
     # the builtin container types themselves (a registry may re-register them, or know none of them): instances of exactly
     # dict / list / tuple, for which an evaluator could be tempted to skip the registry
     Sd = type('Sd', (dict,), {}); Sl = type('Sl', (list,), {})
